@@ -175,7 +175,7 @@ impl Property for C04 {
         "deterministic simulation with fault injection: seeded histories with commands that die while executing (rule panic, flaky primitive at its k-th call, :no-merge conflict, failed lookup, arithmetic failure, failing merge), rejected commands and I/O failures at arbitrary positions; consistency invariant evaluated after every operation"
     }
     fn rule(&self) -> &'static str {
-        "case = seeded history (declarations, rules, writes, runs, push/pop, subsume/delete) with 0-3 injected faults (F4 execution failures placed inside iterations that also stage unions and merges, F5 rejected commands, F6 I/O failures), serial or threaded under the token scheduler. After every command: unique key per table, every stored e-class id (in columns and inside containers) is its own representative, get_size = scan length, serialize() describes the same number of rows, and up to 3 pairs of terms that the dump shows in one class must pass (check (= a b)) immediately. Non-trivial = at least one fault fired and the database has >= 3 rows; distinct = distinct operation lists."
+        "case = seeded history (declarations, rules, writes, runs, push/pop, subsume/delete) with 0-3 injected faults (F4 execution failures placed inside iterations that also stage unions and merges, F5 rejected commands, F6 I/O failures), serial or threaded under the token scheduler; half of the serial cases and all threaded ones draw the rebuild knobs (incremental table / container / bridge rebuild forced or forbidden, rehash threshold, rebuild step size). After every command: unique key per table, every stored e-class id (in columns and inside containers) is its own representative, get_size = scan length, serialize() describes the same number of rows, and up to 3 pairs of terms that the dump shows in one class must pass (check (= a b)) immediately. Non-trivial = at least one fault fired and the database has >= 3 rows; distinct = distinct operation lists."
     }
     fn assumptions(&self) -> Vec<String> {
         vec![
